@@ -338,6 +338,7 @@ def mp_runs(c, part, cpus, extra_env=None):
     """generate programs for `part` and run them under each CPU setting; returns trace files"""
     files = []
     exe = vlib.build_harness()
+    cpus = [(n, g) for (n, g) in cpus if n <= vlib.NCPU]          # affinity masks beyond the machine's CPUs cannot be set
     for (ncpu, gmp) in cpus:
         progs = c.generate("Gen_Proof", name="prog-%s-%d-%s" % (part, ncpu, gmp), env={"VERIF_PART": part, "VERIF_NCPU": ncpu})
         n = sum(1 for _ in open(progs))
